@@ -94,6 +94,7 @@ def group_record(g):
         "center": (float(g.x), float(g.y), float(g.z)),
         "det": det,
         "terminal": g.atom.terminal,
+        "ccc": bool(getattr(g, "common_charge_centre", False)),
     }
 
 
